@@ -1783,7 +1783,7 @@ fn run_lex(cfg: &str, src: &str) -> String {
 const LEX_ALPHABET: &[&str] = &[
     "{{", "}}", "{%", "%}", "{#", "#}", "-", "+", " ", "\n", "\r\n", "\t", "a", "if", "endif", "for", "in", "endfor", "raw",
     "endraw", "x", "1", "1.5", "'", "\"", "ä", "€", "𝄞", "|", "(", ")", "[", "]", ".", ",", "#", "##", "<%", "%>", "«", "»",
-    "text ", "\\", "?", "1_", "==", "~", "set", "=", ":",
+    "text ", "\\", "?", "1_", "==", "~", "set", "=", ":", "\r", "%}\r", "#}\r", "{% endraw %}\r",
 ];
 
 fn random_lex_source(rng: &mut Rng) -> String {
@@ -2211,6 +2211,23 @@ fn variants(c: &Case, idx: usize, tier: &str) -> Vec<(&'static str, usize, usize
                 out.push((xcfg, EXPLODED_FIRST + layout, 0));
             }
         }
+        // line terminator axis (lone CR / CRLF behind every tag end) x white-space configurations
+        // (not where a site fails only because of what the data between the tags says: the sites of one named
+        // configuration, e.g. the formatter that refuses the text REFUSED)
+        for layout in 4..6 {
+            if xcfg != "d" {
+                break;
+            }
+            for cfg in [xcfg, "t", "k"] {
+                if cfg != xcfg && !generated_ok_in_ws_cfg(c) {
+                    continue;
+                }
+                if cfg != xcfg {
+                    out.push((cfg, 0, 0));
+                }
+                out.push((cfg, EXPLODED_FIRST + layout, 0));
+            }
+        }
     }
     for cfg in CONFIGS {
         let cfg: &'static str = cfg;
@@ -2294,7 +2311,15 @@ fn variants(c: &Case, idx: usize, tier: &str) -> Vec<(&'static str, usize, usize
             }
         }
     }
+    let mut seen = std::collections::HashSet::new();
+    out.retain(|x| seen.insert(*x));
     out
+}
+
+/// cases that run in the white-space configurations t / k at all (the sites that fail only in one named
+/// configuration, expressions and loader-backed cases do not)
+fn generated_ok_in_ws_cfg(c: &Case) -> bool {
+    !c.id.starts_with("sl_") && !c.flags.contains('e') && !c.flags.contains('i') && !c.flags.contains('L')
 }
 
 /// the sources of the `cga` stream: every valid template of the fixed-site, span-less, row, inner and
